@@ -105,7 +105,7 @@ impl ZoneStore {
         trace!("store resolve");
 
         // Check cache first (short lock scope)
-        {
+        let invalidations = {
             let mut cache = self.cache.lock().await;
             if let Some(rset) = cache.resolve(pubkey, name, record_type) {
                 debug!(
@@ -114,7 +114,8 @@ impl ZoneStore {
                 );
                 return Ok(Some(rset));
             }
-        }
+            cache.invalidations
+        };
 
         // Check persistent store
         if let Some(packet) = self.store.get(pubkey).await? {
@@ -122,6 +123,15 @@ impl ZoneStore {
             #[cfg(feature = "verif-hooks")]
             crate::verif_hooks::pause("zonestore.resolve.after_store_get");
             let mut cache = self.cache.lock().await;
+            if cache.invalidations != invalidations {
+                // A publish invalidated the cache while we were reading from the store, so
+                // `packet` may already be superseded. Answer from it, but do not cache it:
+                // it would otherwise be served until the next publish for this key.
+                drop(cache);
+                trace!("cache invalidated during store read, not caching");
+                let zone = CachedZone::from_signed_packet(&packet).anyerr()?;
+                return Ok(zone.resolve(name, record_type));
+            }
             let result = cache.insert_and_resolve(&packet, name, record_type);
             return match result {
                 Ok(Some(rset)) => {
@@ -236,6 +246,11 @@ struct ZoneCache {
     dht_cache: TtlCache<PublicKeyBytes, CachedZone>,
     #[debug("metrics")]
     metrics: Arc<Metrics>,
+    /// Number of invalidations so far.
+    ///
+    /// Lets a lookup that read a packet from the store detect that a publish happened in
+    /// the meantime, in which case the packet must not be put into the cache.
+    invalidations: u64,
 }
 
 impl ZoneCache {
@@ -246,6 +261,7 @@ impl ZoneCache {
             cache,
             dht_cache,
             metrics,
+            invalidations: 0,
         }
     }
 
@@ -315,6 +331,7 @@ impl ZoneCache {
     }
 
     fn remove(&mut self, pubkey: &PublicKeyBytes) {
+        self.invalidations = self.invalidations.wrapping_add(1);
         self.cache.pop(pubkey);
         self.dht_cache.remove(pubkey);
         self.metrics.cache_zones.set(self.cache.len() as i64);
